@@ -99,10 +99,16 @@ class OwnHooks(Hooks):
             dk = expr_key(i.dst)
             facts = frozenset(x for x in facts if not (isinstance(x, tuple) and x[0] in ('pend', 'tmpv') and x[1] == dk))
             d = i.dst
-            if d.k == 'ref' and d.x and d.x.get('tmp') and d.v in self.flag_tmps():
+            if d.k == 'ref' and d.v in self.flag_tmps():
                 cv = const_value(i.src, prog)
                 if cv is not None:
                     facts = facts | {('tmpv', d.v, 1 if cv else 0)}
+                else:
+                    sv = strip_casts(i.src)
+                    if sv is not None and sv.k == 'ref':
+                        for x in facts:
+                            if isinstance(x, tuple) and x[0] == 'tmpv' and x[1] == sv.v:
+                                facts = facts | {('tmpv', d.v, x[2])}
             if d.k == 'member' and d.v == 'owner':
                 cv = const_value(i.src, prog)
                 if cv:
@@ -235,8 +241,15 @@ class OwnHooks(Hooks):
                                 a = strip_casts(i.args[pi])
                                 while a.k == 'cast':
                                     a = strip_casts(a.c[0])
-                                if a.k == 'ref' and a.x and a.x.get('tmp'):
+                                if a.k == 'ref' and ((a.x and a.x.get('tmp')) or (a.v in self.f.locals and a.v not in self.f.param_types)):
                                     out.add(a.v)
+            # a named local that receives the short-circuit temporary (`flag = a || b;`): follow one copy
+            for b in self.f.blocks:
+                for i in b.ins:
+                    if i.op == 'assign' and i.dst is not None and i.dst.k == 'ref' and i.dst.v in out:
+                        sv = strip_casts(i.src)
+                        if sv is not None and sv.k == 'ref' and sv.x and sv.x.get('tmp'):
+                            out.add(sv.v)
             self._ft = out
         return self._ft
 
@@ -418,7 +431,7 @@ def run_rules(ctx, chk, eng):
                         val = bool(cv)
                     elif a.k == 'member' and a.v == 'owner':
                         val = True if 'owner' in facts else (False if 'notowner' in facts else 'owner')
-                    elif a.k == 'ref' and a.x and a.x.get('tmp'):
+                    elif a.k == 'ref' and ((a.x and a.x.get('tmp')) or (a.v in f.locals and a.v not in f.param_types)):
                         for x in facts:
                             if isinstance(x, tuple) and x[0] == 'tmpv' and x[1] == a.v:
                                 val = bool(x[2])
